@@ -123,6 +123,9 @@ func playHops(w http.ResponseWriter, hs []Hop) {
 		case "flush":
 			if f, ok := w.(http.Flusher); ok {
 				f.Flush()
+			} else {
+				// the way handlers flush since Go 1.20; a writer that neither flushes nor unwraps answers ErrNotSupported
+				_ = http.NewResponseController(w).Flush()
 			}
 		}
 	}
